@@ -341,6 +341,11 @@ class LoadScopeScheduling:
         # Pop one unit of work and assign it
         self._assign_work_unit(node)
 
+        # A worker cannot start its last queued test before it knows what comes
+        # next: keep at least two tests pending while there is work left
+        while self.workqueue and self._pending_of(self.assigned_work[node]) < 2:
+            self._assign_work_unit(node)
+
     def schedule(self) -> None:
         """Initiate distribution of the test collection.
 
